@@ -35,7 +35,10 @@ public:
         return res;
     }
 
-    SafeInt operator-() const { return SafeInt(-val); }
+    SafeInt operator-() const {
+        if (val == PTRDIFF_MIN) { throw std::overflow_error("Overflow detected during SafeInt negation"); }
+        return SafeInt(-val);
+    }
 
     bool operator==(SafeInt other) const { return val == other.val; }
     bool operator>=(SafeInt other) const { return val >= other.val; }
